@@ -2,6 +2,7 @@ import Model.Common.Proto
 import Model.Common.HashProto
 import Model.C10.Engine
 import Model.C10.Bip322
+import Model.C10.MultiA
 import Generated.Spend
 open Btc Btc.Sighash Btc.Spend
 
@@ -19,6 +20,7 @@ ops
   verdict <flags> <i> <tx> <outs>                                   the same, `ok` / `rej` only
   bip322 <flags> <msg> <spk> <scriptSig> <wit/…|.>                  `bip322.to_spend` / `to_sign` txids (wire order) and the
                                                                     engine run of `assert_as_valid` on a simple signature
+  multia <k> <key,…> <sig|.,…>                                      `MultiA._script` and `MultiA._stack` (offered per key)
 answers: `ok …` / `err value` / `err <ScriptError>` / `none`
 -/
 
@@ -110,6 +112,13 @@ def handleC10 : List String → Option String
       | .ok _ => "ok"
       | .error _ => "rej"
     pure s!"ok {toHex (Bip322.txidWire hash256 spend)} {toHex (Bip322.txidWire hash256 (Bip322.toSign hash256 spend ss))} {v}"
+  | ["multia", k, keys, offered] => do
+    let k ← k.toNat?; let keys ← listTok "," fromHex? keys
+    let offered ← (offered.splitOn ",").mapM (optTok fromHex?)
+    let st := match multiAStack k offered with
+      | some w => witTok w
+      | none => "none"
+    pure s!"ok {toHex (multiAScript k keys)} {st}"
   | _ => none
 
 def handle (toks : List String) : String :=
